@@ -139,8 +139,10 @@ void *realloc(void *p, size_t n)
     if (n < m) m = n;
     m = m / sizeof(va_T);
     if (vg_k < m) r[vg_k] = ((va_T *) p)[vg_k];
+#ifdef VA_REALLOC_3      /* vector / map units only: every extra slot makes the query dearer */
     if (vg_k2 < m) r[vg_k2] = ((va_T *) p)[vg_k2];
     if (vg_j < m) r[vg_j] = ((va_T *) p)[vg_j];
+#endif
     free(p);
     return r;
 }
